@@ -8,6 +8,7 @@ CONSTANTS
   Filts = {FALSE, TRUE}
   Meds = {FALSE, TRUE}
   AllowClear = FALSE
+  DeltaOpts = {TRUE, FALSE}
   AsCoded = FALSE
   Withhold = FALSE
 VIEW View
